@@ -1,3 +1,8 @@
+(* C04 — external product GLWE x GGSW and CMux: phase theorems on the model Gadget.gadget_product / cmux.
+   C04_external_product_phase_lemma  (3c) phase(res) = m2 (x) phase'(ct) + E + 2^P Iq
+   C04_ggsw_cells                    the GGSW-cell hypothesis as a Definition; C04_ggsw_cells_satisfiable: a concrete instance
+   gadget_product_spec_clean         the product started from an un-zeroed accumulator (cmux)
+   C04_cmux_phase_lemma / C04_cmux_selects_lemma   cmux before its final normalisation *)
 From PV Require Import Base.MachineInt Model.Znx Model.Limbs Model.Flat Model.Ring Model.Poly Model.DftAbs Model.Gadget Model.GadgetSpec Proofs.C07Dft Proofs.C07Ring Proofs.GadgetDecomp Proofs.GadgetPhase Proofs.C03Phase.
 Open Scope Z_scope.
 
@@ -5,9 +10,6 @@ Open Scope Z_scope.
    The GGSW hypothesis `ggsw_cells` is TAKEN AS A NAMED SECTION HYPOTHESIS: cell (row, ci) of the GGSW is a GLWE under Sk whose
    phase is  2^(P-(row+1) dsize b) (m2 (x) Sk ci) + e_{row,ci} + 2^P I_{row,ci}   (Sk 0 = 1, Sk (i+1) = s_i: the cell encrypts
    m2 2^(..) for ci = 0 and s_{ci-1} m2 2^(..) for ci >= 1; with the phase convention ct[0] + sum ct[i+1] (x) s_i the sign is +). *)
-Definition sk_ext (n : nat) (sk : list (list Z)) (co : nat) : list Z :=
-  match co with O => pone n | S i => nth i sk (pzero n) end.
-
 Definition C04_ggsw_cells (P b : Z) (n rank msize dsize dnum : nat) (K : pmat) (sk : list (list Z)) (m2 : list Z)
            (e I : nat -> nat -> list Z) : Prop :=
   key_rows_ok P b n (S rank) (S rank) msize dsize dnum K (sk_ext n sk) (fun ci => pmul m2 (sk_ext n sk ci)) e I.
@@ -20,7 +22,7 @@ Variable Sk : nat -> list Z.
 Variable m2 : list Z.
 Variables (e I : nat -> nat -> list Z).
 Hypothesis Ha : wf_cols n (S rank) a_size a.
-Hypothesis HK : wf_pmat n K.
+Hypothesis HK : wf_pmat_in n (dnum * S rank) (msize * S rank) K.
 Hypothesis Hd : (1 <= dsize)%nat.
 Hypothesis Hdrop : (dsize - 2 <= msize)%nat.
 Hypothesis HS : forall co, length (Sk co) = n.
@@ -57,7 +59,7 @@ Proof.
   rewrite (phase_f_ext P b n (S rank) msize (limbs_of res)
              (gp_spec n (S rank) (S rank) msize a_size dsize dnum clamp (acol n a) K) Sk) by (intros; apply E3; assumption).
   pose proof (acol_length n (S rank) a_size a Ha) as LA.
-  rewrite (gadget_phase_rows P b n (S rank) (S rank) msize a_size dsize dnum clamp (acol n a) K Sk (fun ci => pmul m2 (Sk ci)) e I);
+  rewrite (gadget_phase_rows_in P b n (S rank) (S rank) msize a_size dsize dnum clamp (acol n a) K Sk (fun ci => pmul m2 (Sk ci)) e I);
     try assumption.
   - do 2 f_equal. unfold pval_used, phase_f. apply m2_factor. intros. apply pval_length. intros; apply LA.
   - apply (acol_zero n (S rank) a_size a Ha).
@@ -81,3 +83,413 @@ Proof.
   destruct row as [|[|row]]; [| |lia]; (destruct ci as [|[|ci]]; [| |lia]); vm_compute; reflexivity.
 Qed.
 
+
+Section Linear.
+Lemma pscale_psub c a b : pscale c (psub a b) = psub (pscale c a) (pscale c b).
+Proof.
+  unfold pscale, psub, map2. revert b; induction a as [|x a IH]; intros [|y b]; cbn [combine map]; try reflexivity.
+  cbn [fst snd]. rewrite IH. f_equal. ring.
+Qed.
+
+Lemma psumf_psub n f g m : (forall i, (i < m)%nat -> length (f i) = n) -> (forall i, (i < m)%nat -> length (g i) = n) ->
+  psumf n (fun i => psub (f i) (g i)) m = psub (psumf n f m) (psumf n g m).
+Proof.
+  intros Hf Hg.
+  assert (L1 : length (psumf n f m) = n) by (apply psumf_length; exact Hf).
+  assert (L2 : length (psumf n g m) = n) by (apply psumf_length; exact Hg).
+  apply list_eq_nth.
+  - rewrite psub_length, L1, L2, psumf_length; [lia|]. intros. apply psub_len; auto.
+  - intros k _. rewrite nth_psub by lia. rewrite !psumf_coeff by (intros; try apply psub_len; auto).
+    rewrite <- zsum_sub. apply zsum_ext; intros i Hi. apply nth_psub. rewrite Hf, Hg by exact Hi. reflexivity.
+Qed.
+
+Lemma pval_psub P b n f g size : (forall j, (j < size)%nat -> length (f j) = n) -> (forall j, (j < size)%nat -> length (g j) = n) ->
+  pval P b n (fun j => psub (f j) (g j)) size = psub (pval P b n f size) (pval P b n g size).
+Proof.
+  intros Hf Hg. unfold pval. rewrite <- psumf_psub by (intros; rewrite pscale_length; auto).
+  apply psumf_ext; intros j _. apply pscale_psub.
+Qed.
+
+Lemma phase_f_padd P b n cols size R F Sk :
+  (forall co j, (co < cols)%nat -> (j < size)%nat -> length (R co j) = n) ->
+  (forall co j, (co < cols)%nat -> (j < size)%nat -> length (F co j) = n) ->
+  (forall co, (co < cols)%nat -> length (Sk co) = n) ->
+  phase_f P b n cols size (fun co j => padd (R co j) (F co j)) Sk = padd (phase_f P b n cols size R Sk) (phase_f P b n cols size F Sk).
+Proof.
+  intros HR HF HS. unfold phase_f. rewrite <- psumf_padd. apply psumf_ext; intros co Hc.
+  rewrite pval_padd. apply pmul_padd_distr_r; rewrite !pval_length; auto.
+Qed.
+
+Lemma phase_f_psub P b n cols size R F Sk :
+  (forall co j, (co < cols)%nat -> (j < size)%nat -> length (R co j) = n) ->
+  (forall co j, (co < cols)%nat -> (j < size)%nat -> length (F co j) = n) ->
+  (forall co, (co < cols)%nat -> length (Sk co) = n) ->
+  phase_f P b n cols size (fun co j => psub (R co j) (F co j)) Sk = psub (phase_f P b n cols size R Sk) (phase_f P b n cols size F Sk).
+Proof.
+  intros HR HF HS. unfold phase_f.
+  rewrite <- psumf_psub by (intros; rewrite pmul_length; apply pval_length; auto).
+  apply psumf_ext; intros co Hc.
+  rewrite pval_psub by auto. apply pmul_psub_distr_r; rewrite !pval_length; auto.
+Qed.
+
+Lemma phase_f_length P b n cols size R Sk :
+  (forall co j, (co < cols)%nat -> (j < size)%nat -> length (R co j) = n) -> length (phase_f P b n cols size R Sk) = n.
+Proof. intros H. unfold phase_f. apply psumf_length. intros co Hc. rewrite pmul_length. apply pval_length. auto. Qed.
+
+(* zero-extended families: the value does not depend on how many zero limbs are counted *)
+Lemma phase_f_cut P b n cols k size R Sk : (k <= size)%nat ->
+  (forall co j, length (R co j) = n) -> (forall co j, (k <= j)%nat -> (j < size)%nat -> R co j = pzero n) ->
+  phase_f P b n cols size R Sk = phase_f P b n cols k R Sk.
+Proof.
+  intros Hk HR Hz. unfold phase_f. apply psumf_ext; intros co _. f_equal.
+  apply pval_cut; [exact Hk|apply HR|apply Hz].
+Qed.
+
+Lemma psub_pzero_l' n x : length x = n -> psub (pzero n) x = pneg x.
+Proof.
+  intros H. apply list_eq_nth; [rewrite psub_length, pzero_length, pneg_length; lia|].
+  intros k _. rewrite nth_psub by (rewrite pzero_length; exact H). rewrite nth_pzero, nth_pneg. ring.
+Qed.
+Lemma psub_pzero_r' n x : length x = n -> psub x (pzero n) = x.
+Proof.
+  intros H. apply list_eq_nth; [rewrite psub_length, pzero_length; lia|].
+  intros k _. rewrite nth_psub by (rewrite pzero_length; lia). rewrite nth_pzero. ring.
+Qed.
+End Linear.
+
+(* the columns t - f of cmux *)
+Section ColSub.
+Variables (n ncols res_size t_size f_size : nat) (t f : cols_t).
+Hypothesis Ht : wf_cols n ncols t_size t.
+Hypothesis Hf : wf_cols n ncols f_size f.
+
+Lemma col_sub_limb ci j : (ci < ncols)%nat -> (j < res_size)%nat ->
+  lim (col_sub n res_size (col t ci) (col f ci)) j = psub (acol n t ci j) (acol n f ci j).
+Proof.
+  intros Hci Hj. destruct Ht as [Hlt Hct]. destruct Hf as [Hlf Hcf].
+  destruct (Hct ci Hci) as [Lt Wt]. destruct (Hcf ci Hci) as [Lf Wf].
+  unfold col_sub, dft_sub. cbv zeta. rewrite lim_mk' by exact Hj. rewrite Lt, Lf.
+  unfold acol, limz. rewrite Lt, Lf.
+  destruct (Nat.ltb_spec j (Nat.min t_size f_size)) as [H1|H1].
+  - destruct (Nat.ltb_spec j t_size); destruct (Nat.ltb_spec j f_size); try lia. reflexivity.
+  - destruct (Nat.ltb_spec j (Nat.max t_size f_size)) as [H2|H2].
+    + destruct (Nat.leb_spec t_size f_size).
+      * destruct (Nat.ltb_spec j t_size); destruct (Nat.ltb_spec j f_size); try lia.
+        symmetry; apply psub_pzero_l', Wf; assumption.
+      * destruct (Nat.ltb_spec j t_size); destruct (Nat.ltb_spec j f_size); try lia.
+        symmetry; apply psub_pzero_r', Wt; assumption.
+    + destruct (Nat.ltb_spec j t_size); destruct (Nat.ltb_spec j f_size); try lia.
+      symmetry; apply psub_pzero_r', pzero_length.
+Qed.
+
+Lemma cmux_d_wf : wf_cols n ncols res_size (map2 (col_sub n res_size) t f).
+Proof.
+  pose proof (acol_length n ncols t_size t Ht) as LT. pose proof (acol_length n ncols f_size f Hf) as LF.
+  destruct Ht as [Hlt Hct]. destruct Hf as [Hlf Hcf].
+  split; [rewrite map2_length; unfold plimbs in *; lia|].
+  intros ci Hci. rewrite (col_map2 (col_sub n res_size) t f [] [] ci) by (unfold plimbs in *; lia).
+  change (nth ci t []) with (col t ci). change (nth ci f []) with (col f ci).
+  split; [unfold col_sub, dft_sub; apply mk_length|].
+  intros l Hl. rewrite col_sub_limb by assumption. apply psub_len; auto.
+Qed.
+
+Lemma cmux_d_acol ci j : (ci < ncols)%nat -> (j < res_size)%nat ->
+  acol n (map2 (col_sub n res_size) t f) ci j = psub (acol n t ci j) (acol n f ci j).
+Proof.
+  intros Hci Hj. destruct cmux_d_wf as [Hl Hc]. destruct (Hc ci Hci) as [Hlen _].
+  unfold acol at 1. unfold limz. rewrite Hlen. destruct (Nat.ltb_spec j res_size); [|lia].
+  destruct Ht as [Hlt _]. destruct Hf as [Hlf _].
+  rewrite (col_map2 (col_sub n res_size) t f [] [] ci) by (unfold plimbs in *; lia).
+  apply col_sub_limb; assumption.
+Qed.
+End ColSub.
+
+
+Section Clean.
+Variables (n cin cols_out msize a_size dsize dnum : nat) (clamp : bool).
+Variable a : cols_t.
+Variable m : pmat.
+Variable res0 : cols_t.
+Hypothesis Ha : wf_cols n cin a_size a.
+Hypothesis Hd : (1 <= dsize)%nat.
+Hypothesis Hdrop : (dsize - 2 <= msize)%nat.
+Hypothesis Hres0 : wf_cols n cols_out msize res0.
+Hypothesis Hclean : res0_clean n cols_out msize dsize res0.
+
+Theorem gadget_product_spec_clean :
+  exists res, gadget_product n cols_out msize res0 a a_size dsize dnum msize clamp m = Some res /\
+    wf_cols n cols_out msize res /\
+    forall co j, (co < cols_out)%nat -> (j < msize)%nat ->
+      lim (col res co) j = gp_spec n cin cols_out msize a_size dsize dnum clamp (acol n a) m co j.
+Proof.
+  assert (LG : forall co j, length (gp_spec n cin cols_out msize a_size dsize dnum clamp (acol n a) m co j) = n)
+    by (intros; apply gp_spec_length; exact Ha).
+  assert (Fin : forall res, length res = cols_out ->
+     (forall co, (co < cols_out)%nat -> length (col res co) = msize /\
+        forall j, (j < msize)%nat -> lim (col res co) j = gp_spec n cin cols_out msize a_size dsize dnum clamp (acol n a) m co j) ->
+     wf_cols n cols_out msize res /\
+     forall co j, (co < cols_out)%nat -> (j < msize)%nat ->
+       lim (col res co) j = gp_spec n cin cols_out msize a_size dsize dnum clamp (acol n a) m co j).
+  { intros res E2 E3. split.
+    - split; [exact E2|]. intros co Hc. destruct (E3 co Hc) as [E4 E5]. split; [exact E4|].
+      intros j Hj. rewrite E5 by exact Hj. apply LG.
+    - intros co j Hc Hj. apply E3; assumption. }
+  destruct (Nat.eq_dec dsize 1) as [E|E].
+  - destruct (flat_case n cin cols_out msize a_size dnum clamp a m Ha dsize msize res0 E (Nat.le_refl msize)) as [res [E1 [E2 E3]]].
+    exists res. split; [exact E1|]. apply Fin; assumption.
+  - destruct (gadget_product_spec_grouped n cin cols_out msize a_size dsize dnum clamp a m Ha msize res0
+                Hres0 Hdrop (Nat.le_refl msize) ltac:(lia)) as [res [E1 [E2 E3]]].
+    exists res. split; [exact E1|]. apply Fin; [exact E2|].
+    intros co Hc. destruct (E3 co Hc) as [E4 E5]. split; [exact E4|].
+    intros j Hj. rewrite (E5 j Hj).
+    destruct (Nat.ltb_spec j (sz_r msize dsize 0)); [|rewrite Hclean by assumption]; apply padd_pzero_l, LG.
+Qed.
+End Clean.
+
+Section Cmux.
+Variables (be : Z) (P b : Z) (n rank res_size t_size f_size dsize dnum msize : nat).
+Variables (res0 t f : cols_t).
+Variable K : pmat.
+Variable Sk : nat -> list Z.
+Variable bit : Z.
+Variables (e I : nat -> nat -> list Z).
+Let m2 : list Z := pscale bit (pone n).
+Let d : cols_t := map2 (col_sub n res_size) t f.
+Let L1 : nat := Nat.min res_size (dnum * dsize).
+Hypothesis Hn : (1 <= n)%nat.
+Hypothesis Ht : wf_cols n (S rank) t_size t.
+Hypothesis Hf : wf_cols n (S rank) f_size f.
+Hypothesis Hres0 : wf_cols n (S rank) msize res0.
+Hypothesis Hclean : res0_clean n (S rank) msize dsize res0.
+Hypothesis HK : wf_pmat_in n (dnum * S rank) (msize * S rank) K.
+Hypothesis Hd : (1 <= dsize)%nat.
+Hypothesis Hdrop : (dsize - 2 <= msize)%nat.
+Hypothesis HS : forall co, length (Sk co) = n.
+Hypothesis He : forall row ci, length (e row ci) = n.
+Hypothesis HI : forall row ci, length (I row ci) = n.
+Hypothesis Hb : 0 <= b.
+Hypothesis HP : Z.of_nat msize * b <= P.
+Hypothesis HP2 : Z.of_nat dnum * Z.of_nat dsize * b <= P.
+Hypothesis ggsw_cells : key_rows_ok P b n (S rank) (S rank) msize dsize dnum K Sk (fun ci => pmul m2 (Sk ci)) e I.
+
+Let E : list Z := gadget_err P b n (S rank) (S rank) msize dsize dnum (acol n d) K Sk e.
+Let Iq : list Z := gadget_int b n (S rank) (S rank) msize dsize dnum (acol n d) K Sk I.
+(* phases of t, f over the limbs that meet a GGSW row, and of the part of f that add_small adds *)
+Let PT1 : list Z := phase_f P b n (S rank) L1 (acol n t) Sk.
+Let PF1 : list Z := phase_f P b n (S rank) L1 (acol n f) Sk.
+Let PF2 : list Z := phase_f P b n (S rank) (Nat.min msize f_size) (acol n f) Sk.
+
+Lemma m2_length : length m2 = n.
+Proof. unfold m2. rewrite pscale_length. apply pone_length; exact Hn. Qed.
+
+Lemma m2_mul x : length x = n -> pmul m2 x = pscale bit x.
+Proof.
+  intros H. unfold m2. rewrite pscale_pmul_l. f_equal. rewrite <- H. apply pmul_one_l. lia.
+Qed.
+
+(* cmux before its final normalisation: (t - f) (x) GGSW(bit) + f *)
+Theorem C04_cmux_phase_lemma :
+  exists big, gadget_product n (S rank) msize res0 d res_size dsize dnum msize false K = Some big /\
+    cmux be n b rank res_size t_size f_size dsize dnum msize res0 t f K
+      = sequence (map (big_normalize (wbig be) n b b res_size) (map2 add_small big f)) /\
+    wf_cols n (S rank) msize (map2 add_small big f) /\
+    phase_f P b n (S rank) msize (limbs_of (map2 add_small big f)) Sk
+    = padd (padd (padd (pscale bit (psub PT1 PF1)) PF2) E) (pscale (2 ^ P) Iq).
+Proof.
+  pose proof (cmux_d_wf n (S rank) res_size t_size f_size t f Ht Hf) as Hdw. fold d in Hdw.
+  destruct (gadget_product_spec_clean n (S rank) (S rank) msize res_size dsize dnum false d K res0 Hdw Hd Hdrop Hres0 Hclean)
+    as [big [E1 [E2 E3]]].
+  exists big. split; [exact E1|]. split; [unfold cmux; fold d; rewrite E1; reflexivity|].
+  pose proof (acol_length n (S rank) f_size f Hf) as LF. pose proof (acol_zero n (S rank) f_size f Hf) as ZF.
+  pose proof (acol_length n (S rank) t_size t Ht) as LT.
+  pose proof (acol_length n (S rank) res_size d Hdw) as LD.
+  destruct E2 as [Hlb Hcb]. destruct Hf as [Hlf Hcf].
+  (* limbs of the result *)
+  assert (Hlimb : forall co j, (co < S rank)%nat -> (j < msize)%nat ->
+            limbs_of (map2 add_small big f) co j = padd (limbs_of big co j) (acol n f co j)).
+  { intros co j Hc Hj. unfold limbs_of. rewrite (col_map2 add_small big f [] [] co) by (unfold plimbs in *; lia).
+    change (nth co big []) with (col big co). change (nth co f []) with (col f co).
+    destruct (Hcb co Hc) as [Lb Wb]. destruct (Hcf co Hc) as [Lfc _].
+    unfold add_small. rewrite Lb, lim_mk' by exact Hj. rewrite Lfc. unfold acol, limz. rewrite Lfc.
+    destruct (Nat.ltb_spec j f_size); [reflexivity|]. symmetry. apply padd_pzero_r. apply Wb; exact Hj. }
+  split.
+  - split; [rewrite map2_length; unfold plimbs in *; lia|]. intros co Hc. split.
+    + rewrite (col_map2 add_small big f [] [] co) by (unfold plimbs in *; lia).
+      unfold add_small. rewrite mk_length. apply (Hcb co Hc).
+    + intros j Hj. change (lim (col (map2 add_small big f) co) j) with (limbs_of (map2 add_small big f) co j).
+      rewrite Hlimb by assumption. apply padd_len; [apply (Hcb co Hc); exact Hj|apply LF].
+  - rewrite (phase_f_ext P b n (S rank) msize _ (fun co j => padd (limbs_of big co j) (acol n f co j)) Sk) by exact Hlimb.
+    rewrite phase_f_padd by (intros; try apply LF; try apply HS; apply (Hcb co); assumption).
+    (* the product part *)
+    rewrite (phase_f_ext P b n (S rank) msize (limbs_of big)
+               (gp_spec n (S rank) (S rank) msize res_size dsize dnum false (acol n d) K) Sk) by (intros; apply E3; assumption).
+    rewrite (gadget_phase_rows_in P b n (S rank) (S rank) msize res_size dsize dnum false (acol n d) K Sk (fun ci => pmul m2 (Sk ci)) e I);
+      try assumption;
+      [|apply (acol_zero n (S rank) res_size d Hdw)|intros; rewrite pmul_length; apply m2_length].
+    fold E Iq.
+    (* main term: m2 (x) phase'(t - f) = bit (phase'(t) - phase'(f)) *)
+    assert (Emain : psumf n (fun ci => pmul (pval_used P b n res_size dsize dnum (acol n d) ci) (pmul m2 (Sk ci))) (S rank)
+                    = pscale bit (psub PT1 PF1)).
+    { rewrite (m2_factor n Sk m2 HS m2_length) by (intros; unfold pval_used; apply pval_length; intros; apply LD).
+      rewrite m2_mul by (apply psumf_length; intros; rewrite pmul_length; unfold pval_used; apply pval_length; intros; apply LD).
+      f_equal. unfold PT1, PF1. rewrite <- phase_f_psub by (intros; auto).
+      unfold phase_f, pval_used. fold L1. apply psumf_ext; intros ci Hci. f_equal.
+      unfold pval. apply psumf_ext; intros j Hj. f_equal.
+      apply (cmux_d_acol n (S rank) res_size t_size f_size t f Ht); [split; assumption|exact Hci|unfold L1 in Hj; lia]. }
+    rewrite Emain.
+    (* the part of f that add_small adds *)
+    assert (EF : phase_f P b n (S rank) msize (acol n f) Sk = PF2).
+    { unfold PF2. apply phase_f_cut; [lia|exact LF|]. intros co j H1 H2. apply ZF. lia. }
+    rewrite EF.
+    set (M := pscale bit (psub PT1 PF1)).
+    rewrite !padd_assoc. f_equal. rewrite <- !padd_assoc. rewrite (padd_comm (padd E (pscale (2 ^ P) Iq)) PF2).
+    rewrite !padd_assoc. reflexivity.
+Qed.
+
+(* bit = 0 selects f, bit = 1 selects t (when no limb of f is lost: f_size <= min(res_size, dnum*dsize), f_size <= msize) *)
+Theorem C04_cmux_selects_lemma : (bit = 0 \/ bit = 1) ->
+  (bit = 1 -> (f_size <= L1)%nat /\ (f_size <= msize)%nat) ->
+  exists big, gadget_product n (S rank) msize res0 d res_size dsize dnum msize false K = Some big /\
+    cmux be n b rank res_size t_size f_size dsize dnum msize res0 t f K
+      = sequence (map (big_normalize (wbig be) n b b res_size) (map2 add_small big f)) /\
+    phase_f P b n (S rank) msize (limbs_of (map2 add_small big f)) Sk
+    = padd (padd (if bit =? 1 then PT1 else PF2) E) (pscale (2 ^ P) Iq).
+Proof.
+  intros Hbit Hsz. destruct C04_cmux_phase_lemma as [big [E1 [E2 [_ E3]]]].
+  exists big. split; [exact E1|]. split; [exact E2|]. rewrite E3. do 2 f_equal.
+  pose proof (acol_length n (S rank) f_size f Hf) as LF. pose proof (acol_zero n (S rank) f_size f Hf) as ZF.
+  pose proof (acol_length n (S rank) t_size t Ht) as LT.
+  assert (LT1 : length PT1 = n) by (apply phase_f_length; intros; apply LT).
+  assert (LF1 : length PF1 = n) by (apply phase_f_length; intros; apply LF).
+  assert (LF2 : length PF2 = n) by (apply phase_f_length; intros; apply LF).
+  destruct Hbit as [-> | ->]; cbn [Z.eqb Pos.eqb].
+  - rewrite pscale_0, psub_length, LT1, LF1, Nat.min_id. apply padd_pzero_l; exact LF2.
+  - rewrite pscale_1. destruct (Hsz eq_refl) as [H1 H2].
+    assert (EF : PF1 = PF2).
+    { unfold PF1, PF2. rewrite (Nat.min_r msize f_size) by exact H2.
+      apply phase_f_cut; [exact H1|exact LF|]. intros co j G1 G2. apply ZF; exact G1. }
+    rewrite EF. apply list_eq_nth; [rewrite padd_length, psub_length; lia|].
+    intros k _. rewrite nth_padd by (rewrite psub_length; lia). rewrite nth_psub by lia. ring.
+Qed.
+End Cmux.
+
+(* (3c) stated with Gadget.phase_val, when no input limb is lost (a_size <= dnum*dsize):
+   phase(res) = m2 (x) phase(ct) + E + 2^P Iq *)
+Section C04PhaseVal.
+Variables (P b : Z) (n msize a_size dsize dnum : nat) (clamp : bool).
+Variable a : cols_t.
+Variable K : pmat.
+Variable sk : list (list Z).
+Variable m2 : list Z.
+Variables (e I : nat -> nat -> list Z).
+Let rank := length sk.
+Let Sk := sk_ext n sk.
+Hypothesis Ha : wf_cols n (S rank) a_size a.
+Hypothesis HK : wf_pmat_in n (dnum * S rank) (msize * S rank) K.
+Hypothesis Hn : (1 <= n)%nat.
+Hypothesis Hd : (1 <= dsize)%nat.
+Hypothesis Hdrop : (dsize - 2 <= msize)%nat.
+Hypothesis Hfit : (a_size <= dnum * dsize)%nat.
+Hypothesis Hsk : forall s, In s sk -> length s = n.
+Hypothesis Hm2 : length m2 = n.
+Hypothesis He : forall row ci, length (e row ci) = n.
+Hypothesis HI : forall row ci, length (I row ci) = n.
+Hypothesis Hb : 0 <= b.
+Hypothesis HP : Z.of_nat msize * b <= P.
+Hypothesis HP2 : Z.of_nat dnum * Z.of_nat dsize * b <= P.
+Hypothesis ggsw_cells : C04_ggsw_cells P b n rank msize dsize dnum K sk m2 e I.
+
+Theorem C04_external_product_phase_val_lemma :
+  exists res, gadget_product n (S rank) msize (zcols n (S rank) msize) a a_size dsize dnum msize clamp K = Some res /\
+    phase_val P b n sk res
+    = padd (padd (pmul m2 (phase_val P b n sk a))
+                 (gadget_err P b n (S rank) (S rank) msize dsize dnum (acol n a) K Sk e))
+           (pscale (2 ^ P) (gadget_int b n (S rank) (S rank) msize dsize dnum (acol n a) K Sk I)).
+Proof.
+  pose proof (sk_ext_length n sk Hn Hsk) as HS.
+  destruct (C04_external_product_phase_lemma P b n rank msize a_size dsize dnum clamp a K Sk m2 e I
+              Ha HK Hd Hdrop HS Hm2 He HI Hb HP HP2 ggsw_cells) as [res [E1 [E2 E3]]].
+  exists res. split; [exact E1|].
+  assert (Hnth : forall i, (i < length sk)%nat -> length (nth i sk (pzero n)) = n) by (intros; apply Hsk, nth_In; assumption).
+  rewrite (phase_val_phase_f P b n sk res msize Hn E2 Hnth).
+  rewrite (phase_val_phase_f P b n sk a a_size Hn Ha Hnth).
+  fold rank Sk. rewrite E3. do 3 f_equal.
+  rewrite Nat.min_l by exact Hfit. apply phase_f_ext. intros co j Hc Hj.
+  destruct Ha as [_ Hcols]. destruct (Hcols co Hc) as [Hlen _].
+  unfold acol, limz, limbs_of. rewrite Hlen. destruct (Nat.ltb_spec j a_size); [reflexivity|lia].
+Qed.
+End C04PhaseVal.
+
+(* ---- the hypotheses of the C04 phase theorems are satisfiable: a concrete small instance (stated as Examples in Props/C04.v) ---- *)
+(* a concrete small external product: n = 2, rank = 1, a_size = 2, dsize = 1, dnum = 2, msize = 2, b = 4, P = 8, s = X;
+   noise-free GGSW-like matrix of the message m2: cell (row, ci) holds m2 (x) Sk ci in limb `row` of its body column *)
+Definition ex4_sk : list (list Z) := [[0; 1]].
+Definition ex4_K (m2 : list Z) : pmat := fun q c =>
+  let row := (q / 2)%nat in let ci := (q mod 2)%nat in
+  let limb := (c / 2)%nat in let co := (c mod 2)%nat in
+  if Nat.eqb co 0 && Nat.eqb limb row then pmul m2 (sk_ext 2 ex4_sk ci) else pzero 2.
+Definition ex4_m2 : list Z := [3; 1].
+Definition ex4_ct : cols_t := [[[1; 2]; [3; 4]]; [[5; 6]; [7; 8]]].
+Definition ex4_f : cols_t := [[[2; 0]; [1; 1]]; [[0; 3]; [4; 5]]].
+Definition ex4_zero : nat -> nat -> list Z := fun _ _ => pzero 2.
+
+Ltac ex4_cells_tac :=
+  intros row ci Hrow Hci;
+  destruct row as [|[|row]]; [| |lia]; (destruct ci as [|[|ci]]; [| |lia]); vm_compute; reflexivity.
+
+Lemma ex4_wf_cols c : c = ex4_ct \/ c = ex4_f \/ c = zcols 2 2 2 -> wf_cols 2 2 2 c.
+Proof.
+  intros [-> | [-> | ->]]; (split; [reflexivity|]); intros ci H; (destruct ci as [|[|ci]]; [| |lia]);
+    (split; [reflexivity|]); intros l Hl; destruct l as [|[|l]]; try lia; reflexivity.
+Qed.
+
+Lemma ex4_sk_len co : length (sk_ext 2 ex4_sk co) = 2%nat.
+Proof. destruct co as [|[|co]]; try reflexivity. cbn. destruct co; reflexivity. Qed.
+
+Lemma ex4_K_wf m2 : length m2 = 2%nat -> wf_pmat_in 2 (2 * 2) (2 * 2) (ex4_K m2).
+Proof. intros H q c _ _. unfold ex4_K. cbv zeta. destruct (_ && _); [rewrite pmul_length; exact H|reflexivity]. Qed.
+
+Lemma C04_hypotheses_satisfiable_lemma :
+  wf_cols 2 2 2 ex4_ct /\ wf_pmat_in 2 (2 * 2) (2 * 2) (ex4_K ex4_m2) /\ (1 <= 1)%nat /\ (1 - 2 <= 2)%nat /\
+  (forall co, length (sk_ext 2 ex4_sk co) = 2%nat) /\ length ex4_m2 = 2%nat /\
+  (forall row ci, length (ex4_zero row ci) = 2%nat) /\ 0 <= 4 /\ Z.of_nat 2 * 4 <= 8 /\ Z.of_nat 2 * Z.of_nat 1 * 4 <= 8 /\
+  C04_ggsw_cells 8 4 2 1 2 1 2 (ex4_K ex4_m2) ex4_sk ex4_m2 ex4_zero ex4_zero.
+Proof.
+  repeat match goal with |- _ /\ _ => split end; try lia; try reflexivity.
+  - apply ex4_wf_cols; auto.
+  - apply ex4_K_wf; reflexivity.
+  - apply ex4_sk_len.
+  - unfold C04_ggsw_cells. ex4_cells_tac.
+Qed.
+
+Lemma C04_instance_runs_lemma :
+  exists res, gadget_product 2 2 2 (zcols 2 2 2) ex4_ct 2 1 2 2 false (ex4_K ex4_m2) = Some res /\
+    phase_f 8 4 2 2 2 (limbs_of res) (sk_ext 2 ex4_sk)
+    = padd (padd (pmul ex4_m2 (phase_f 8 4 2 2 (Nat.min 2 (2 * 1)) (acol 2 ex4_ct) (sk_ext 2 ex4_sk)))
+                 (gadget_err 8 4 2 2 2 2 1 2 (acol 2 ex4_ct) (ex4_K ex4_m2) (sk_ext 2 ex4_sk) ex4_zero))
+           (pscale (2 ^ 8) (gadget_int 4 2 2 2 2 1 2 (acol 2 ex4_ct) (ex4_K ex4_m2) (sk_ext 2 ex4_sk) ex4_zero)).
+Proof. eexists. split; vm_compute; reflexivity. Qed.
+
+(* cmux with bit = 1 on the same shapes: t = ex4_ct, f = ex4_f, GGSW of the constant polynomial 1 *)
+Lemma C04_cmux_hypotheses_satisfiable_lemma :
+  (1 <= 2)%nat /\ wf_cols 2 2 2 ex4_ct /\ wf_cols 2 2 2 ex4_f /\ wf_cols 2 2 2 (zcols 2 2 2) /\ res0_clean 2 2 2 1 (zcols 2 2 2) /\
+  wf_pmat_in 2 (2 * 2) (2 * 2) (ex4_K (pscale 1 (pone 2))) /\
+  key_rows_ok 8 4 2 2 2 2 1 2 (ex4_K (pscale 1 (pone 2))) (sk_ext 2 ex4_sk) (fun ci => pmul (pscale 1 (pone 2)) (sk_ext 2 ex4_sk ci)) ex4_zero ex4_zero /\
+  (1 = 0 \/ 1 = 1) /\ (1 = 1 -> (2 <= Nat.min 2 (2 * 1))%nat /\ (2 <= 2)%nat).
+Proof.
+  repeat match goal with |- _ /\ _ => split end; try lia; try (apply ex4_wf_cols; auto).
+  - intros co j _ H1 H2. unfold sz_r in H1. cbn in H1. lia.
+  - apply ex4_K_wf; reflexivity.
+  - ex4_cells_tac.
+
+Qed.
+
+(* the meaning of the GGSW-cell hypothesis, spelled out (pinned in Props/C04.v) *)
+Lemma C04_ggsw_cells_meaning_lemma (P b : Z) (n rank msize dsize dnum : nat) (K : pmat) (sk : list (list Z)) (m2 : list Z)
+      (e I : nat -> nat -> list Z) :
+  C04_ggsw_cells P b n rank msize dsize dnum K sk m2 e I <->
+  (forall row ci, (row < dnum)%nat -> (ci < S rank)%nat ->
+     kphase P b n (S rank) msize K (sk_ext n sk) (row * S rank + ci)%nat
+     = padd (padd (pscale (2 ^ (P - (Z.of_nat row + 1) * Z.of_nat dsize * b)) (pmul m2 (sk_ext n sk ci))) (e row ci))
+            (pscale (2 ^ P) (I row ci))).
+Proof. unfold C04_ggsw_cells, key_rows_ok. tauto. Qed.
